@@ -287,7 +287,10 @@ class C22(Prop):
         "node pattern handed to overlap.")
     technique = ("Coq proof (list/incidence lemmas, induction over layers, lia/nia on the index "
                  "arithmetic) + vm_compute execution correspondence + brute-force oracles")
-    rule = ("40% of all grids in a corner of the input space: coordinates times 2^k (k = -30..24), dyadic "
+    rule = ("every run starts with a directed, seed-independent sweep: determine_coarse_dimensions + "
+            "partition_structured(num_part=t) for all shapes with sizes 1..7 (1-D, 2-D) and 1..4 (3-D) and all "
+            "targets 1..min(cells, 16) (120 shapes, about 1500 calls, all tied and checked: 1 <= coarse <= fine, one "
+            "id per cell, ids exactly 0..prod(coarse)-1). Then: 40% of all grids in a corner of the input space: coordinates times 2^k (k = -30..24), dyadic "
             "translations up to 1024, permuted coordinate axes (1-D/2-D grids in other lines/planes), "
             "permuted node/face/cell numbering (dim <= 2), csc storage with reversed column entries "
             "(unsorted indices) and int8/int64/float64 values; every call is checked not to modify the "
@@ -309,7 +312,19 @@ class C22(Prop):
                    "on every generated call)"]
 
     # -------------------------------------------------------------------------------
+    def _sweep(self):
+        """Directed, seed-independent stream (every run): determine_coarse_dimensions +
+        partition_structured(num_part=t) for ALL shapes with sizes 1..7 in 2-D, 1..4 in 3-D and
+        1..7 in 1-D, and all targets t = 1..min(number of cells, 16)."""
+        shapes = [[a] for a in range(1, 8)]
+        shapes += [[a, b] for a in range(1, 8) for b in range(1, 8)]
+        shapes += [[a, b, c] for a in range(1, 5) for b in range(1, 5) for c in range(1, 5)]
+        for fine in shapes:
+            total = int(np.prod(fine))
+            yield {"kind": "psweep", "fine": fine, "targets": list(range(1, min(total, 16) + 1))}
+
     def generate(self, rng, n, tier):
+        yield from self._sweep()
         for _ in range(n):
             r = rng.random()
             if r < 0.38:
@@ -538,6 +553,9 @@ class C22(Prop):
                     "cnodes": ([[int(i) for i in cn.indices[cn.indptr[j]:cn.indptr[j + 1]]]
                                 for j in range(h.num_cells)] if cn is not None else None),
                     "parent_changed": _changed(before, _snap(g))}
+        if k == "psweep":
+            return {"runs": [self.run_impl({"kind": "pstruct", "fine": case["fine"], "coarse": None,
+                                            "num_part": t}) for t in case["targets"]]}
         if k == "pstruct":
             g = pp.CartGrid(np.array(case["fine"]))
             fine = g.cart_dims
@@ -722,6 +740,16 @@ class C22(Prop):
             if np.max(np.abs(cc - g.face_centers[:, fs])) > 1e-9 * mag:
                 return "cell centres of the face grid differ from the parent's face centres"
             return None
+        if k == "psweep":
+            for t, run in zip(case["targets"], res["runs"]):
+                sub = {"kind": "pstruct", "fine": case["fine"], "coarse": None, "num_part": t}
+                why = self._oracle(sub, run)
+                if why is None and "ids" in run and sorted(set(run["ids"])) != list(range(int(np.prod(run["used"])))):
+                    # (C22_structured_partition_onto: with 1 <= coarse <= fine every part is used)
+                    why = f"part ids {sorted(set(run['ids']))} are not 0..{int(np.prod(run['used'])) - 1}"
+                if why:
+                    return f"fine {case['fine']}, num_part={t}: {why}"
+            return None
         if k == "pstruct":
             fine, used = case["fine"], res.get("used")
             if case["coarse"] is None:
@@ -861,6 +889,11 @@ class C22(Prop):
                 term = (f"andb ({term}) (agree_sub_geometry {nodes} {_csc(cf)} {_csc(fn)} {c} "
                         f"{cbool(case['sort'])} {impl})")
             return term
+        if k == "psweep":
+            terms = [self.coq_case({"kind": "pstruct", "fine": case["fine"], "coarse": None,
+                                    "num_part": t}, run) for t, run in zip(case["targets"], res["runs"])]
+            terms = [t for t in terms if t is not None]
+            return _andb(terms) if terms else None
         if k == "pstruct":
             if res.get("err") == "Other":
                 return None
@@ -891,6 +924,8 @@ class C22(Prop):
 
     def finding_key(self, case, res, why):
         k = case["kind"]
+        if k == "psweep":
+            return "partition_structured(num_part): " + " ".join(why.split(": ", 1)[-1].split(" ")[:3])
         if k == "pstruct":
             if "raised" in why and len(case["fine"]) == 1:
                 return "partition_structured: 1-D grid"
